@@ -122,3 +122,227 @@ Definition extract_min (h : heap) : xres :=
           end
       end
   end.
+
+(* ---- _cut / _cascading_cut ----
+   `upd` is what the caller did to node x before looking at its parent (new key, or deleted := True).
+   cut_node x upd t searches x strictly below t.
+     CDone t' cuts : found; t' is t afterwards, `cuts` the nodes handed to _append_root, in that order;
+     CCasc t' cuts : same, and t' has just lost a child: _cascading_cut(t') is still to be decided by
+                     whoever is t's parent (mark it, or cut it and go on). *)
+Inductive cres := CNot | CDone (t : hnode) (cuts : list hnode) | CCasc (t : hnode) (cuts : list hnode).
+Inductive kres := KNot | KDone (ks : list hnode) (cuts : list hnode) | KCasc (ks : list hnode) (cuts : list hnode).
+
+Section Cut.
+Variable x : Z.
+Variable upd : hnode -> hnode.
+
+Fixpoint cut_node (t : hnode) : cres :=
+  match t with
+  | HNode i k m d ks =>
+      match (fix go (ks : list hnode) : kres :=
+               match ks with
+               | [] => KNot
+               | c :: r =>
+                   if Z.eqb (nid c) x then
+                     let c' := upd c in
+                     if node_lt c' t then KCasc r [set_mark false c']       (* _cut(x, y) *)
+                     else KDone (c' :: r) []
+                   else
+                     match cut_node c with
+                     | CNot => match go r with
+                               | KNot => KNot
+                               | KDone r' cu => KDone (c :: r') cu
+                               | KCasc r' cu => KCasc (c :: r') cu end
+                     | CDone c' cu => KDone (c' :: r) cu
+                     | CCasc c' cu =>                                       (* _cascading_cut(c'), parent t *)
+                         if nmark c' then KCasc r (cu ++ [set_mark false c'])
+                         else KDone (set_mark true c' :: r) cu
+                     end
+               end) ks with
+      | KNot => CNot
+      | KDone ks' cu => CDone (HNode i k m d ks') cu
+      | KCasc ks' cu => CCasc (HNode i k m d ks') cu
+      end
+  end.
+
+(* over the root ring: a root has no parent, so x itself is only updated and a cascade stops *)
+Fixpoint cut_roots (rs : list hnode) : option (list hnode * list hnode) :=
+  match rs with
+  | [] => None
+  | r :: rest =>
+      if Z.eqb (nid r) x then Some (upd r :: rest, [])
+      else match cut_node r with
+           | CNot => match cut_roots rest with
+                     | None => None
+                     | Some (rest', cu) => Some (r :: rest', cu) end
+           | CDone r' cu | CCasc r' cu => Some (r' :: rest, cu)
+           end
+  end.
+End Cut.
+
+(* ---- public operations ---- *)
+Definition empty : heap := {| roots := []; minp := None; hn := 0 |}.
+
+(* result of an operation: new heap, return value, internal-error flag (shown unreachable) *)
+Definition res := (heap * ret * bool)%type.
+
+Definition push (i k : Z) (h : heap) : res :=
+  let node := HNode i k false false [] in
+  let rs := ring_add node (roots h) in
+  match minp h with
+  | None => ({| roots := rs; minp := Some i; hn := hn h + 1 |}, RItem i k, false)
+  | Some m =>
+      match find_forest m (roots h) with
+      | None => (h, RNone, true)
+      | Some mn => ({| roots := rs; minp := Some (if node_lt node mn then i else m); hn := hn h + 1 |},
+                    RItem i k, false)
+      end
+  end.
+
+(* while self._min is not None and self._min.deleted: self._extract_min() *)
+Fixpoint drop_deleted (fuel : nat) (h : heap) : heap * bool :=
+  match fuel with
+  | O => (h, true)
+  | S f =>
+      match minp h with
+      | None => (h, false)
+      | Some m =>
+          match find_forest m (roots h) with
+          | None => (h, true)
+          | Some mn => if ndel mn then
+                         match extract_min h with XOk _ h' => drop_deleted f h' | _ => (h, true) end
+                       else (h, false)
+          end
+      end
+  end.
+
+Definition peek (h : heap) : res :=
+  match drop_deleted (S (Z.to_nat (hn h))) h with
+  | (h', e) =>
+      match minp h' with
+      | None => (h', RExc AttributeError, e)                (* None.item *)
+      | Some m => match find_forest m (roots h') with
+                  | Some mn => (h', RItem m (nkey mn), e)
+                  | None => (h', RNone, true) end
+      end
+  end.
+
+Definition pop (h : heap) : res :=
+  match drop_deleted (S (Z.to_nat (hn h))) h with
+  | (h', e) =>
+      match extract_min h' with
+      | XEmpty => (h', RExc AttributeError, e)              (* None.item *)
+      | XOk z h'' => (h'', RItem (nid z) (nkey z), e)
+      | XErr => (h', RNone, true)
+      end
+  end.
+
+Definition decrease_key (x k : Z) (h : heap) : res :=
+  match find_forest x (roots h) with
+  | None => (h, RNone, false)                               (* not a member: outside the domain, no-op *)
+  | Some xn =>
+      if lt (nkey xn) k then (h, RExc ValueError, false)
+      else
+        match cut_roots x (set_kd k (ndel xn)) (roots h), minp h with
+        | Some (rs, cuts), Some m =>
+            let rs2 := splice rs cuts in
+            match find_forest m rs2 with
+            | Some mn => ({| roots := rs2; minp := Some (if node_lt (set_kd k (ndel xn) xn) mn then x else m);
+                             hn := hn h |}, RNone, false)
+            | None => (h, RNone, true) end
+        | _, _ => (h, RNone, true)
+        end
+  end.
+
+Definition remove (x : Z) (h : heap) : res :=
+  match find_forest x (roots h) with
+  | None => (h, RNone, false)                               (* not a member: outside the domain, no-op *)
+  | Some xn =>
+      match cut_roots x (set_kd (nkey xn) true) (roots h) with
+      | Some (rs, cuts) =>
+          match extract_min {| roots := splice rs cuts; minp := Some x; hn := hn h |} with
+          | XOk _ h' => (h', RNone, false)
+          | _ => (h, RNone, true) end
+      | None => (h, RNone, true)
+      end
+  end.
+
+(* ---- histories ---- *)
+Record mstate := { sh : heap; snext : Z; serr : bool }.
+Definition init : mstate := {| sh := empty; snext := 0; serr := false |}.
+
+Definition apply_op (o : op) (s : mstate) : res * Z :=
+  match o with
+  | Push k => (push (snext s) k (sh s), snext s + 1)
+  | Pop => (pop (sh s), snext s)
+  | Peek => (peek (sh s), snext s)
+  | DecreaseKey i k => (decrease_key i k (sh s), snext s)
+  | Remove i => (remove i (sh s), snext s)
+  end.
+
+Definition step (s : mstate) (o : op) : mstate :=
+  match apply_op o s with
+  | ((h, _, e), nx) => {| sh := h; snext := nx; serr := serr s || e |} end.
+Definition step_ret (s : mstate) (o : op) : ret := match apply_op o s with ((_, r, _), _) => r end.
+
+Definition run (ops : list op) : mstate := fold_left step ops init.
+
+End Model.
+
+(* ---- correspondence: the model replay reproduces every dump exactly ---- *)
+Fixpoint hnode_eqb (a b : hnode) : bool :=
+  match a, b with
+  | HNode i k m d ks, HNode i' k' m' d' ks' =>
+      Z.eqb i i' && Z.eqb k k' && Bool.eqb m m' && Bool.eqb d d' &&
+      (fix go (l l' : list hnode) : bool :=
+         match l, l' with
+         | [], [] => true
+         | u :: r, v :: r' => hnode_eqb u v && go r r'
+         | _, _ => false end) ks ks'
+  end.
+Fixpoint list_eqb {A} (e : A -> A -> bool) (l l' : list A) : bool :=
+  match l, l' with [], [] => true | u :: r, v :: r' => e u v && list_eqb e r r' | _, _ => false end.
+Definition oz_eqb (a b : option Z) : bool :=
+  match a, b with Some u, Some v => Z.eqb u v | None, None => true | _, _ => false end.
+Definition heap_eqb (a b : heap) : bool :=
+  list_eqb hnode_eqb (roots a) (roots b) && oz_eqb (minp a) (minp b) && Z.eqb (hn a) (hn b).
+Definition exc_eqb (a b : exc) : bool :=
+  match a, b with ValueError, ValueError | AttributeError, AttributeError | OtherExc, OtherExc => true
+  | _, _ => false end.
+Definition ret_eqb (a b : ret) : bool :=
+  match a, b with
+  | RNone, RNone => true
+  | RItem i k, RItem i' k' => Z.eqb i i' && Z.eqb k k'
+  | RExc e, RExc e' => exc_eqb e e'
+  | _, _ => false end.
+
+(* per node in pre-order: (id, degree = number of children, parent id) *)
+Fixpoint aux_of (p : option Z) (t : hnode) : list (Z * Z * option Z) :=
+  match t with
+  | HNode i _ _ _ ks => (i, Z.of_nat (length ks), p) :: flat_map (aux_of (Some i)) ks end.
+Definition aux_eqb (a b : Z * Z * option Z) : bool :=
+  match a, b with (i, d, p), (i', d', p') => Z.eqb i i' && Z.eqb d d' && oz_eqb p p' end.
+
+Fixpoint corr_run (lt : Z -> Z -> bool) (s : mstate) (h : list (op * obs)) : bool :=
+  match h with
+  | [] => true
+  | (o, ob) :: rest =>
+      let s' := step lt s o in
+      negb (serr s') &&
+      ret_eqb (step_ret lt s o) (o_ret ob) &&
+      heap_eqb (sh s') (o_heap ob) &&
+      Z.eqb (hn (sh s')) (o_len ob) &&
+      list_eqb aux_eqb (flat_map (aux_of None) (roots (sh s'))) (o_aux ob) &&
+      corr_run lt s' rest
+  end.
+
+Definition corr_C16 (c : case) : bool := corr_run (key_lt (c_max c)) init (c_ops c).
+
+(* the model's state after the first disagreeing step (diagnostics only) *)
+Fixpoint first_bad (lt : Z -> Z -> bool) (s : mstate) (n : nat) (h : list (op * obs)) : option (nat * mstate * ret) :=
+  match h with
+  | [] => None
+  | (o, ob) :: rest =>
+      if corr_run lt s [(o, ob)] then first_bad lt (step lt s o) (S n) rest
+      else Some (n, step lt s o, step_ret lt s o)
+  end.
